@@ -34,6 +34,24 @@ a[j] alias iff i == j (decided by the solver).
 Sub-expressions are leaves with a concrete read set: a literal (symbolic
 value), a read of another buffer, a read of the written buffer at the same or
 at another index.
+
+Shape classes marked `w.defect = ...` were ACCEPTED by the pinned tree and
+refuted by the final-store clause (replayed natively, witness/F_C01e_*.py):
+split_write with a second addend that reads the destination; inline_assign of
+a location that is still live (argument, read after the block, aliasing read
+x[j]) or whose right-hand side is overwritten before a use; lift_reduce_constant
+with an accumulator that does not start at zero; bind_expr across a call that
+writes what the expression reads; fold_into_reduce / bind_expr taking two
+buffers that print alike for one.  All are repaired in /repo (one `fix:` commit
+each); the shapes stay, the repaired code must now refuse them.  The
+`defect_class` predicates are kept for known_findings.json style matching.
+
+Unbounded: literal values, index arguments, buffer contents, loop bounds of
+lift_reduce_constant (lock-step rule with a coupling relation, stmt_ghost) and
+of loops that contain only `pass`.  Bounded: block lengths (<= 4 statements),
+expression trees (<= 3 leaves), the loop next to a deleted / inserted `pass`
+(literal trip counts 0, 1, 2, 3), reductions of lift_reduce_constant stand
+directly in the loop body or under one guard.
 """
 from __future__ import annotations
 from pyvc.contract import contract, Args
@@ -76,7 +94,10 @@ ASSUMPTIONS = [
     "sibling statements; right-hand sides are trees of at most three leaves (literal / read of another buffer / read "
     "of the written buffer at the same or another index); blocks have at most four statements; operators are "
     "enumerated over + - * /; functions that compare *printed* expressions (fold_into_reduce, inline_assign, "
-    "bind_expr) are run with index arguments and the literals 0, 1 as indices",
+    "bind_expr) are run with index arguments and the literals 0, 1 as indices; lift_reduce_constant: scaled "
+    "reductions stand directly in the loop body or under one guard (lock-step rule, coupling acc_orig = v0 + "
+    "c * (acc_new - v0)); delete_pass / insert_pass next to a statement inside a loop: literal trip counts 0..3; "
+    "commute_expr with the cursor list [outer, inner] is excluded (dies inside the cursor library, C06's subject)",
 ]
 
 
